@@ -692,7 +692,9 @@ func TestC06(t *testing.T) {
 			plain = nil
 		}
 		c := c06Case{Kind: kind, Doc: string(text), Shuffled: string(text)}
-		if plain != nil && !strings.Contains(string(text), "\\u0000dup") {
+		if _, dupErr := strictParse(text); plain != nil && dupErr == nil && !gen.CaseFoldCollision(plain) {
+			// (nor is one in which two member names case-fold onto the same keyword: the decoder then keeps the textually last one)
+			// (a document with a repeated member name is not the same value once parsed generically: no shuffle then)
 			c.Shuffled = string(shuffledText(t, plain))
 		}
 		f, nt := oracleC06(c)
